@@ -15,11 +15,19 @@ func runC01(w *World) {
 	w.Stalls = true
 	w.MaxSteps = 60000
 	w.Net.CapsOracle = true
-	ch := NewChaos(w, ChaosOpts{MaxPeers: 3, Churn: true, Deviations: true})
+	maxPeers := 3
+	if w.Tier == "thorough" {
+		maxPeers = 4
+	}
+	ch := NewChaos(w, ChaosOpts{MaxPeers: maxPeers, Churn: true, Deviations: true})
 	if ch == nil {
 		return
 	}
 	dur := time.Duration(w.Range(5, 90, "duration")) * time.Second
+	if w.Tier == "thorough" && w.Chance(1, 4, "long") {
+		dur *= 4
+		w.MaxSteps = 150000
+	}
 	w.Sleep(dur)
 	ch.Ending = true
 	ok := ch.E.Shutdown(30 * time.Second)
